@@ -38,7 +38,10 @@ typedef size_t stamp_t;
 struct tcb { mptr prev; mptr next; stamp_t stamp; uint64_t xv_pad; };   /* xv_pad: ghost padding, makes the block size a power of two (cheap offset -> index in the monitors) */
 struct node { struct node* next_chunk; };
 struct toq { tcbp head; tcbp tail; struct node* global_retired_nodes; };
-#define NB 7
+#ifndef LMAX
+#define LMAX 3u          /* shape: at most LMAX blocks in the list */
+#endif
+#define NB (3u + LMAX)  /* tail, head, LMAX list blocks, one block outside */
 #ifdef XV_INT
 /* INT: the rely is much weaker than the algorithm's invariant, so pointers may lead anywhere: null / wild indices read a junk block, and the
  * code's own assert()s (which state parts of that invariant) are not checked */
@@ -71,9 +74,7 @@ static tcbp xv_new_tcb(void) { tcbp p = ++alloc_n; pool[tcb_ix(p)].prev = 0; poo
 #define I_TAIL 1u
 #define I_HEAD 2u
 #define I_B0 3u          /* blocks in the list: I_B0 .. I_B0 + in_n - 1, oldest (next to tail) first */
-#define I_X 6u           /* a block outside the list (the one pushed) */
-#define I_Y 7u           /* another block outside the list */
-#define LMAX 3u
+#define I_X (I_B0 + LMAX) /* a block outside the list (the one pushed) */
 #define B(i) (pool[(i) - 1u])
 struct toq Q;
 struct node npool[3];
@@ -107,7 +108,8 @@ static _Bool obs_is(void* addr, uint64_t v) {
   if (h_a3 == addr) return h_v3 == v;
   return 0;
 }
-uint64_t m_own_stamp_ld;   /* last value loaded from the own block's stamp */
+uint64_t m_own_stamp_ld;
+unsigned m_ls_ix, m_ls2_ix; uint64_t m_ls_val, m_ls2_val; size_t uts_guess;   /* the last two stamp loads (update_tail_stamp: last->stamp, then tail->stamp); the guess update_tail_stamp was called with */   /* last value loaded from the own block's stamp */
 /* head->stamp */
 unsigned m_hs_rmw_n; uint64_t m_hs_old, m_hs_clk;
 /* tail->stamp */
@@ -160,9 +162,9 @@ static void sqi_add_global2(struct toq* self, struct node* first_chunk, struct n
 #define SQI_remove_or_skip_marked_block sqi_remove_or_skip_marked_block
 #ifdef XV_STUB_CALLEES
 /* run remove_int: the callees are contract stubs.  Under the INT rely their results are arbitrary well-typed values; what remove does with them is checked */
-unsigned st_smf_n, st_rfpl_n, st_rfnl_n, st_uts_n; void *st_smf_cell0, *st_smf_cell1; int st_smf_order0, st_smf_order1; _Bool st_rfpl_res; mptr st_rfpl_b, st_rfnl_b; size_t st_uts_stamp; uint64_t st_uts_clk;
-static mptr st_set_mark_flag(mptr* ptr_p, int order) { if (st_smf_n == 0) { st_smf_cell0 = (void*)ptr_p; st_smf_order0 = order; } else { st_smf_cell1 = (void*)ptr_p; st_smf_order1 = order; } st_smf_n++; return any_mptr(); }
-static _Bool st_remove_from_prev_list(mptr* prev_p, mptr b, mptr* next_p) { st_rfpl_n++; st_rfpl_b = b; *prev_p = any_mptr(); *next_p = any_mptr(); st_rfpl_res = nondet_bool(); return st_rfpl_res; }
+unsigned st_smf_n, st_rfpl_n, st_rfnl_n, st_uts_n; _Bool st_prev_marked, st_next_marked, st_marked_at_rfpl; int st_prev_order; _Bool st_rfpl_res; mptr st_rfpl_b, st_rfnl_b; size_t st_uts_stamp; uint64_t st_uts_clk;
+static mptr st_set_mark_flag(mptr* ptr_p, int order) { if (mon_own && (void*)ptr_p == (void*)&pool[mon_own - 1u].prev) { st_prev_marked = 1; st_prev_order = order; } if (mon_own && (void*)ptr_p == (void*)&pool[mon_own - 1u].next) st_next_marked = 1; st_smf_n++; return any_mptr(); }
+static _Bool st_remove_from_prev_list(mptr* prev_p, mptr b, mptr* next_p) { st_rfpl_n++; st_rfpl_b = b; st_marked_at_rfpl = st_prev_marked && st_next_marked; *prev_p = any_mptr(); *next_p = any_mptr(); st_rfpl_res = nondet_bool(); return st_rfpl_res; }
 static void st_remove_from_next_list(mptr prev, mptr removed, mptr next) { st_rfnl_n++; st_rfnl_b = removed; }
 static void st_update_tail_stamp(struct toq* self, size_t stamp) { st_uts_n++; st_uts_stamp = stamp; st_uts_clk = xv_clock; }
 #define SQI_set_mark_flag st_set_mark_flag
@@ -182,6 +184,7 @@ static void mon_load(void* addr, uint64_t v, int o) {
   OBS_SET(addr, v);
   if (addr == (void*)&B(I_HEAD).prev) m_hp_ld_clk = xv_clock;
   if (mon_own && addr == (void*)&B(mon_own).stamp) m_own_stamp_ld = v;
+  { unsigned ix = 0; if (cell_of(addr, &ix) == F_STAMP) { m_ls2_ix = m_ls_ix; m_ls2_val = m_ls_val; m_ls_ix = ix; m_ls_val = v; } }
 }
 static void mon_store(void* addr, uint64_t v, int o) {
   if (addr == (void*)&Q.global_retired_nodes) { g_store_n++; return; }
@@ -218,6 +221,9 @@ static void mon_cas(void* addr, uint64_t e, uint64_t d, _Bool ok, int o) {
   if (f == F_STAMP) {
     if (ix + 1 == I_TAIL) {                           /* tail->stamp only grows, release */
       XV_OBL("stampq.cas.stamp_writes", d > e && XV_IS_RELEASE(o));
+      /* the new value is the caller's guess or the stamp just read from the block tail->next points to - head's stamp (which runs ahead of the
+       * blocks being inserted) only after head->prev's tag was renewed by a successful CAS, so that a push holding an older stamp must retry */
+      XV_OBL("stampq.update_tail.source", d == uts_guess || (d == m_ls2_val && (m_ls2_ix + 1 != I_HEAD || n_bump_ok >= 1)));
 #ifndef XV_INT
       XV_OBL("stampq.cas.stamp_writes", FLAGS(d) == 0);
 #endif
@@ -322,7 +328,7 @@ static uint64_t env_val(void* addr, uint64_t cur) {
 
 
 /* =========================================== quiescent queue =========================================== */
-unsigned in_n, in_k; size_t in_s0, in_s1, in_s2, in_hs, in_ts, in_xs; uint64_t in_xp, in_xn;
+unsigned in_mode, in_lmax, in_n, in_k; size_t in_s0, in_s1, in_s2, in_hs, in_ts, in_xs; uint64_t in_xp, in_xn;
 unsigned in_tp0, in_tp1, in_tp2, in_tn0, in_tn1, in_tn2, in_thp, in_ttn;        /* tags (marks without the delete bit) */
 struct tcb snap[NBX];
 #define CLEAN_TAG(t) ((t) & MarkMask & ~DeleteMark)
@@ -332,7 +338,7 @@ static unsigned ntag(unsigned i) { return i == 0 ? in_tn0 : i == 1 ? in_tn1 : in
 /* quiescent queue: tail <-> B0 <-> ... <-> B(n-1) <-> head, links consistent in both directions, no delete marks, arbitrary tags;
  * stamps strictly increasing from tail to head, free of flags; head->stamp above all of them; tail->stamp not above any of them */
 static void build_quiescent(void) {
-  in_n = nondet_uint(); XV_ASSUME(in_n <= LMAX);
+  in_n = nondet_uint(); XV_ASSUME(in_n <= LMAX); in_lmax = LMAX;
 #ifdef XV_N
   XV_ASSUME(in_n == XV_N);
 #endif
@@ -479,7 +485,7 @@ static void check_push_post(void) {
   XV_OBL("stampq.push.publish_order", m_xs_clk > pub_clk && m_xs_val == pub_hs_old && XV_IS_RELEASE(m_xs_order) && FLAGS(m_xs_val) == 0);
 }
 void h_push(void) {
-  havoc_pool(); build_quiescent();
+  havoc_pool(); build_quiescent(); in_mode = 1;
   in_xs = B(I_X).stamp; in_xp = B(I_X).prev; in_xn = B(I_X).next;      /* the block pushed: outside, arbitrary leftovers of its previous life */
   take_snap(); mon_op = OP_PUSH; mon_own = I_X;
   tcbp newest = in_n ? I_B0 + in_n - 1 : I_TAIL;
@@ -504,10 +510,10 @@ void h_push(void) {
   if (in_n == LMAX) XV_CANARY("push.full");
 }
 void h_remove(void) {
-  havoc_pool(); build_quiescent();
+  havoc_pool(); build_quiescent(); in_mode = 2;
   in_k = nondet_uint(); XV_ASSUME(in_n >= 1 && in_k < in_n);
   take_snap();
-  tcbp r = I_B0 + in_k; size_t my = B(r).stamp; mon_op = OP_REMOVE; mon_own = r;
+  tcbp r = I_B0 + in_k; size_t my = B(r).stamp; mon_op = OP_REMOVE; mon_own = r; uts_guess = my + StampInc;
   _Bool res = sq_remove(&Q, MP_make(r, 0));          /* remove(marked_ptr block) is called with the raw control block pointer */
   exp_n = 0; for (unsigned i = 0; i < LMAX; i++) if (i < in_n && i != in_k) exp_seq[exp_n++] = I_B0 + i;
   XV_OBL("stampq.remove.unlinks", links_ok());
@@ -531,7 +537,7 @@ void h_remove(void) {
     else XV_OBL("stampq.remove.last_iff", t == in_hs || (t == my + StampInc && t + StampInc == in_hs));
     XV_OBL("stampq.remove.last_iff", m_ts_write_n == 1 && m_ts_new == t);
     if (in_n > 1) XV_CANARY("remove.last_nonempty"); else XV_CANARY("remove.last_empty");
-    if (in_n == 1 && t == in_hs && my + StampInc < in_hs) XV_CANARY("remove.last_empty_head_stamp");
+    if (in_n == 1 && t == in_hs && my + StampInc < in_hs) { XV_OBL("stampq.update_tail.source", n_bump_ok == 1 && B(I_HEAD).prev != snap[I_HEAD - 1].prev); XV_CANARY("remove.last_empty_head_stamp"); }
   } else {
     XV_OBL("stampq.remove.last_iff", B(I_TAIL).stamp == in_ts && m_ts_write_n == 0);
     if (in_k == in_n - 1) XV_CANARY("remove.newest"); else XV_CANARY("remove.middle");
@@ -571,6 +577,7 @@ void h_global(void) {
 }
 
 /* =========================================== step 3: INT (interference) =========================================== */
+static void int_start(void);
 void h_global_int(void) {
 #ifdef XV_INT
   havoc_pool(); mon_op = OP_OTHER;
@@ -634,7 +641,7 @@ void h_mark_int(void) {
 void h_uts_int(void) {
 #ifdef XV_INT
   int_start();
-  size_t st = nondet_size();
+  size_t st = nondet_size(); uts_guess = st;
   env_on = 1; sqi_update_tail_stamp(&Q, st); env_on = 0;
   XV_OBL("stampq.cas.stamp_writes", n_link_prev_ok + n_link_next_ok + n_mark_ok + n_help_ok == 0 && n_tail_ok <= 1 && n_bump_ok <= 1);
   if (n_tail_ok) XV_CANARY("uts_int.raised"); else XV_CANARY("uts_int.not_raised");
@@ -662,15 +669,139 @@ void h_remove_int(void) {
 #if defined(XV_INT) && defined(XV_STUB_CALLEES)
   int_start();
   tcbp r = nondet_uint(); XV_ASSUME(r >= I_B0 && r <= NB && FLAGS(B(r).stamp) == 0);
-  mon_op = OP_REMOVE; mon_own = r; env_on = 1; size_t my = B(r).stamp; st_smf_n = st_rfpl_n = st_rfnl_n = st_uts_n = 0;
+  mon_op = OP_REMOVE; mon_own = r; env_on = 1; size_t my = B(r).stamp; st_smf_n = st_rfpl_n = st_rfnl_n = st_uts_n = 0; st_prev_marked = st_next_marked = st_marked_at_rfpl = 0;
   _Bool res = sqi_remove(&Q, MP_make(r, 0));
   env_on = 0;
-  /* marks its own prev (acq_rel: sync point 9) and next first, then unlinks: next list only if the prev list did not report "fully removed" */
-  XV_OBL("stampq.remove.flags_own_stamp", st_smf_n == 2 && st_smf_cell0 == (void*)&B(r).prev && XV_IS_RELEASE(st_smf_order0) && XV_IS_ACQUIRE(st_smf_order0) && st_smf_cell1 == (void*)&B(r).next);
+  /* marks its own prev (acq_rel: sync point 9) and its own next before it starts unlinking; next list only if the prev list did not report "fully removed" */
+  XV_OBL("stampq.remove.flags_own_stamp", st_marked_at_rfpl && XV_IS_RELEASE(st_prev_order) && XV_IS_ACQUIRE(st_prev_order));
   XV_OBL("stampq.remove.flags_own_stamp", st_rfpl_n == 1 && MP_get(st_rfpl_b) == r && st_rfnl_n == (st_rfpl_res ? 0u : 1u) && (st_rfnl_n == 0 || MP_get(st_rfnl_b) == r));
   XV_OBL("stampq.remove.flags_own_stamp", m_own_stamp_store_n == 1 && B(r).stamp == my + NotInList);
   /* the tail stamp is only touched by the remover that reports "was last", with its own stamp + StampInc as the guess, after the own stamp was flagged */
   XV_OBL("stampq.remove.last_iff", st_uts_n == (res ? 1u : 0u) && (!res || st_uts_stamp == my + StampInc));
   if (res) XV_CANARY("remove_int.true"); else XV_CANARY("remove_int.false");
 #endif
+}
+
+/* =========================================== step 2b: mid-operation states (other threads stalled), SEQ ===========================================
+ * A quiescent queue of 1..3 blocks in which up to two other threads are stalled in the middle of an operation:
+ *   in_pend = 1: the pusher of the newest block P stalled right after the publishing CAS: P carries its pending stamp, its predecessor's next still says head
+ *   in_pend = 2: ... stalled after storing the final stamp, before linking the predecessor's next (a lagging next link)
+ *   in_d = d+1, in_dst: the remover of block d stalled   1: after marking prev   2: after marking next too   3: after unlinking d from the prev list
+ *                                                       4: after unlinking d from the next list as well (NotInList not yet set)
+ * The stalled blocks are not adjacent to each other.  From such a state one more thread runs push or remove to completion, alone (C16: solo termination). */
+unsigned in_pend, in_d, in_dst, in_op;
+#define FINAL(s) ((s) + (((s) & PendingPush) ? StampInc - PendingPush : 0))     /* the stamp a block has or - while its push is pending - is about to get */
+static tcbp older_of(unsigned i) { return i == 0 ? I_TAIL : I_B0 + i - 1; }
+static tcbp newer_of(unsigned i) { return i + 1 == in_n ? I_HEAD : I_B0 + i + 1; }
+static void build_mid(void) {
+  build_quiescent(); XV_ASSUME(in_n >= 1);
+  in_pend = nondet_uint(); in_d = nondet_uint(); in_dst = nondet_uint();
+  XV_ASSUME(in_pend <= 2 && in_d <= in_n && in_dst >= 1 && in_dst <= 4);
+  if (in_pend) {
+    tcbp p = I_B0 + in_n - 1, o = older_of(in_n - 1);
+    B(o).next = MP_make(I_HEAD, MP_mark(B(o).next));                                  /* the predecessor's next was not yet moved to P */
+    if (in_pend == 1) B(p).stamp = B(p).stamp - (StampInc - PendingPush);
+    XV_ASSUME(in_d == 0 || in_d - 1 + 2 < in_n);                                       /* the stalled remover's block is neither P nor P's predecessor */
+  }
+  if (in_d) {
+    unsigned d = in_d - 1; tcbp D = I_B0 + d, o = older_of(d), nw = newer_of(d);
+    B(D).prev |= DeleteMark;
+    if (in_dst >= 2) B(D).next |= DeleteMark;
+    if (in_dst >= 3) B(nw).prev = MP_make(o, MP_mark(B(nw).prev) + TagInc);
+    if (in_dst >= 4) B(o).next = MP_make(nw, MP_mark(B(o).next) + TagInc);
+  }
+}
+/* the prev chain from head: strictly decreasing stamps, ends at tail, contains every block of `must` (bit i = list block i, bit 3 = X), nothing of `never` */
+static _Bool prev_chain_ok(unsigned must, unsigned never) {
+  tcbp cur = I_HEAD; size_t last = B(I_HEAD).stamp; unsigned seen = 0;
+  for (unsigned step = 0; step < LMAX + 3; step++) {
+    if (cur != I_HEAD && cur != I_TAIL) { unsigned bit = cur == I_X ? 8u : (1u << (cur - I_B0)); if (never & bit) return 0; seen |= bit; }
+    if (cur == I_TAIL) return (seen & must) == must;
+    tcbp p = MP_get(B(cur).prev);
+    if (p < I_TAIL || p > I_X || p == I_HEAD) return 0;
+    if (p != I_TAIL && !(B(p).stamp < last)) return 0;
+    if (p != I_TAIL) last = B(p).stamp;
+    cur = p;
+  }
+  return 0;
+}
+/* following next from tail reaches head (possibly through blocks that are being / have been removed) */
+static _Bool next_chain_reaches_head(void) {
+  tcbp cur = I_TAIL;
+  for (unsigned step = 0; step < LMAX + 4; step++) {
+    if (cur == I_HEAD) return 1;
+    tcbp n = MP_get(B(cur).next);
+    if (n < I_HEAD || n > I_X) return 0;
+    cur = n;
+  }
+  return 0;
+}
+void h_mid(void) {
+  havoc_pool(); build_mid(); in_mode = 3;
+  in_op = nondet_uint(); in_k = nondet_uint(); XV_ASSUME(in_op <= 1 && in_k < in_n);
+#ifdef XV_MID_OP
+  XV_ASSUME(in_op == XV_MID_OP);
+#endif
+#ifdef XV_K
+  XV_ASSUME(in_k == XV_K);
+#endif
+#ifdef XV_MID_PEND
+  XV_ASSUME((in_pend != 0) == (XV_MID_PEND != 0));
+#endif
+  unsigned all = (1u << in_n) - 1, dbit = in_d ? (1u << (in_d - 1)) : 0;
+  take_snap();
+  if (in_op == 0) {
+    in_xs = B(I_X).stamp; in_xp = B(I_X).prev; in_xn = B(I_X).next;
+    mon_op = OP_PUSH; mon_own = I_X;
+    tcbp newest = I_B0 + in_n - 1;
+    sq_push(&Q, I_X);
+    XV_OBL("stampq.push.fresh_stamp", B(I_X).stamp == in_hs && B(I_HEAD).stamp == in_hs + StampInc && m_hs_rmw_n == 1);
+    XV_OBL("stampq.mid.push_links", MP_get(B(I_HEAD).prev) == I_X && !MARKED(B(I_HEAD).prev) && B(I_X).prev == MP_make(MP_get(snap[I_HEAD - 1].prev), MP_mark(B(I_X).prev)) && !MARKED(B(I_X).prev));
+    XV_OBL("stampq.mid.push_links", MP_get(B(I_X).next) == I_HEAD && !MARKED(B(I_X).next) && (MP_get(B(newest).next) == I_X || MARKED(snap[newest - 1].next)));
+    XV_OBL("stampq.mid.push_links", prev_chain_ok((all & ~(in_dst >= 3 ? dbit : 0)) | 8u, in_dst >= 3 ? dbit : 0) && next_chain_reaches_head());
+    check_push_post();
+    for (unsigned i = 0; i < LMAX; i++) if (i < in_n) XV_OBL("stampq.mid.lower_bound", B(I_TAIL).stamp <= FINAL(B(I_B0 + i).stamp) && B(I_B0 + i).stamp < B(I_X).stamp && B(I_B0 + i).stamp == snap[I_B0 + i - 1].stamp);
+    XV_OBL("stampq.mid.lower_bound", B(I_TAIL).stamp == in_ts);
+    XV_OBL("stampq.push.terminates", xv_iters == 1 && n_cas_fail == 0);
+#if !defined(XV_MID_OP) || XV_MID_OP == 0
+    if (in_pend == 1) XV_CANARY("mid.push_after_pending");
+    if (in_d && in_d == in_n && in_dst >= 2) XV_CANARY("mid.push_after_marked_newest");
+#endif
+  } else {
+    XV_ASSUME(in_pend == 0 || in_k + 1 < in_n);            /* the pusher of the newest block is still inside push */
+    tcbp r = I_B0 + in_k; size_t my = B(r).stamp; mon_op = OP_REMOVE; mon_own = r; uts_guess = my + StampInc;
+    _Bool res = sq_remove(&Q, MP_make(r, 0));
+    unsigned rbit = 1u << in_k, gone = rbit | (in_dst >= 3 ? dbit : 0);
+    /* every block whose removal has not begun stays in the prev chain; the removed block is out of it; a block already out stays out */
+    XV_OBL("stampq.mid.remove_unlinks", prev_chain_ok(all & ~rbit & ~dbit, gone) && next_chain_reaches_head());
+    XV_OBL("stampq.mid.remove_unlinks", B(r).stamp == my + NotInList && MARKED(B(r).prev) && MARKED(B(r).next) && m_own_stamp_store_n == 1 && m_hs_rmw_n == 0);
+    /* nobody's next still leads to the removed block, unless that somebody is itself being removed */
+    for (unsigned i = 0; i < LMAX; i++) if (i < in_n && i != in_k && !(in_d && i == in_d - 1)) XV_OBL("stampq.mid.remove_unlinks", MP_get(B(I_B0 + i).next) != r);
+    XV_OBL("stampq.mid.remove_unlinks", MP_get(B(I_TAIL).next) != r);
+    /* stamps of the others: untouched, except that a pending stamp may have been helped to its final value */
+    for (unsigned i = 0; i < LMAX; i++) if (i < in_n && i != in_k) {
+      size_t s0 = snap[I_B0 + i - 1].stamp, s1 = B(I_B0 + i).stamp;
+      XV_OBL("stampq.mid.remove_unlinks", s1 == s0 || (in_pend == 1 && i + 1 == in_n && s1 == s0 + (StampInc - PendingPush)));
+      if (!(in_d && i == in_d - 1)) XV_OBL("stampq.mid.lower_bound", B(I_TAIL).stamp <= FINAL(s1) && s1 < B(I_HEAD).stamp);
+    }
+    XV_OBL("stampq.mid.lower_bound", B(I_TAIL).stamp >= in_ts && B(I_TAIL).stamp <= B(I_HEAD).stamp && B(I_HEAD).stamp == in_hs);
+    /* "was last": its prev leads to tail - it was the oldest block, or the only older one had already been taken out of the prev list */
+    _Bool oldest = in_k == 0 || (in_k == 1 && in_d == 1 && in_dst >= 3);
+    XV_OBL("stampq.mid.remove_last_iff", res == oldest);
+    if (res) XV_OBL("stampq.mid.remove_last_iff", B(I_TAIL).stamp >= my + StampInc);
+    else XV_OBL("stampq.mid.remove_last_iff", B(I_TAIL).stamp == in_ts);
+#if !defined(XV_MID_OP) || XV_MID_OP == 1
+    if (in_d && in_d - 1 == in_k) XV_CANARY("mid.resumed_removal");
+    if (in_d && in_dst == 3) XV_CANARY("mid.half_unlinked");
+#if !defined(XV_N) || XV_N >= 2
+#if !defined(XV_K) || XV_K + 2 == XV_N
+    if (in_pend == 1 && B(I_B0 + in_n - 1).stamp != snap[I_B0 + in_n - 2].stamp) XV_CANARY("mid.helped_pending");
+#endif
+    if (in_d && in_d - 1 != in_k && in_dst <= 2 && !prev_chain_ok(dbit, 0)) XV_CANARY("mid.helped_marked_out");
+#if !defined(XV_K) || XV_K == 1
+    if (res && in_k == 1) XV_CANARY("mid.last_behind_unlinked");
+#endif
+#endif
+#endif
+  }
 }
